@@ -19,6 +19,7 @@ type c01Prog struct {
 	AST    *gen.Block
 	NV     int
 	Family string
+	LoopVar bool
 }
 
 // family of a PRNG program: which constructs with recorded engine defects it contains.
@@ -129,6 +130,54 @@ func randomProgs(rng *fw.Rng, n, depth, budget int) []c01Prog {
 	return out
 }
 
+// loopVarProgs: the same gateway decides differently on later visits because its conditions read the
+// counter of the enclosing loop (0 during the first iteration). Forced shapes: a gateway (directly in the
+// loop, in a sub-process, two levels down next to a parallel branch) takes a different flow on each visit,
+// the default flow first and conditional ones later, or finds no flow on a later visit (error trace; the
+// token stays at the gateway, so the loop ends there); PRNG programs around them.
+func loopVarProgs(rng *fw.Rng, n, depth, budget int) []c01Prog {
+	var out []c01Prog
+	cv := func(v, op string, val int64) *gen.Cond { return &gen.Cond{Kind: "var", Var: v, Op: op, Val: val} }
+	sub := func(b *gen.Block) *gen.Block { return &gen.Block{Kind: "sub", Default: -1, Kids: []*gen.Block{b}} }
+	loop := func(b *gen.Block, bound int) *gen.Block {
+		return &gen.Block{Kind: "loop", Default: -1, Var: "cntV", Bound: bound, Kids: []*gen.Block{b}}
+	}
+	gw := func(kind string, def int, conds ...*gen.Cond) *gen.Block {
+		b := &gen.Block{Kind: kind, Default: def, Conds: conds}
+		for range conds {
+			b.Kids = append(b.Kids, gen.T())
+			b.Ends = append(b.Ends, false)
+		}
+		return b
+	}
+	add := func(name string, ast *gen.Block) {
+		out = append(out, c01Prog{Name: "loopvar:" + name, AST: ast, NV: 2, Family: "loopvar:" + name, LoopVar: true})
+	}
+	for _, kind := range []string{"or", "xor"} {
+		// the third flow on the first visit, the first on the second, two (or: both; xor: the first) on the third
+		add(kind+"-late", gen.Seq(gen.T(), loop(sub(gw(kind, -1, cv("cntV", ">", 0), cv("cntV", ">", 1), cv("cntV", "==", 0))), 3), gen.T()))
+		// a flow on the first visit only: the later visits find none
+		add(kind+"-early", gen.Seq(gen.T(), loop(sub(gw(kind, -1, cv("cntV", "==", 0), cv("v0", ">", 5))), 3), gen.T()))
+		// with a default flow: default first, then the conditional ones
+		add(kind+"-default", gen.Seq(gen.T(), loop(gw(kind, 2, cv("cntV", ">", 0), cv("cntV", "==", 1), nil), 3), gen.T()))
+		// the erring gateway two sub-process levels down, next to a branch that always runs
+		add(kind+"-deep", gen.Seq(gen.T(), loop(sub(&gen.Block{Kind: "and", Default: -1, Kids: []*gen.Block{
+			sub(gw(kind, -1, cv("cntV", ">", 0), cv("v0", ">", 0))), gen.T()}}), 2), gen.T()))
+	}
+	for i := 0; i < n; i++ {
+		nv := 2 + rng.Intn(2)
+		gn := &gen.Gen{R: rng, NVars: nv, Budget: budget, NoOr: i%3 == 0, LoopVar: true}
+		body := gn.Block("loop", depth, false)
+		if i%2 == 0 {
+			// the loop body as a whole is a sub-process: a token that ends in an error inside does not end the loop
+			body.Kids[0] = sub(body.Kids[0])
+		}
+		ast := gen.Seq(gen.T(), body, gen.T())
+		out = append(out, c01Prog{Name: fmt.Sprintf("loopvar:rnd%d", i), AST: ast, NV: nv, Family: familyOf(ast), LoopVar: true})
+	}
+	return out
+}
+
 func hasOr(g *gen.Graph) bool {
 	for _, n := range g.Nodes {
 		if n.Kind == gen.Or {
@@ -191,6 +240,11 @@ func c01CasesFor(progs []c01Prog, rng *fw.Rng, maxData, maxOrders, stormReps int
 		g.FlowsReversed = pi%3 == 2
 		for di, vars := range assignments(p.NV, maxData, rng) {
 			zeroData(vars, ast)
+			if p.LoopVar {
+				for _, l := range gen.LoopVars(ast) {
+					vars[l] = 0
+				}
+			}
 			base := step.Case{Name: fmt.Sprintf("%s/d%d", p.Name, di), G: g, Vars: vars, Family: p.Family, Lenient: hasOr(g)}
 			orders, _ := step.Orders(&base, maxOrders, rng)
 			if len(orders) > maxOrders {
@@ -224,6 +278,13 @@ func c01Cases(tier string, seed uint64) []fw.Case {
 	} else {
 		progs = append(progs, randomProgs(rng, 120, 3, 14)...)
 		cs = c01CasesFor(progs, rng, 3, 5, 2, nil)
+	}
+	// gateways that decide differently on later visits (loop counters in conditions)
+	lrng := fw.NewRng(seed, "C01loopvar")
+	if tier == "thorough" {
+		cs = append(cs, c01CasesFor(loopVarProgs(lrng, 400, 4, 20), lrng, 4, 12, 2, nil)...)
+	} else {
+		cs = append(cs, c01CasesFor(loopVarProgs(lrng, 40, 3, 12), lrng, 2, 3, 1, nil)...)
 	}
 	// instances sharing one definitions value
 	twinProgs := append(forcedPairs(fw.NewRng(seed, "C01")), forcedData()...)
